@@ -112,7 +112,8 @@ def run(ctx):
             def is_dest(c, side=side):
                 return c.op == 'in' and any(getattr(n, 'pkey', None) == f"{side}[0].name" or
                                             (isinstance(n, ast.Attribute) and n.attr == 'name' and
-                                             getattr(n.value, 'pkey', None) == f"{side}[0]")
+                                             (getattr(n.value, 'pkey', None) == f"{side}[0]" or
+                                              getattr(strip_refs(n.value), 'pkey', None) == f"{side}[0]"))
                                             for n in deep_walk(c.left))
             g = gate_with(ff.state_before(stmt), is_dest)
             ctx.ob('C09.R1', fi, stmt.lineno, f"`{side.replace('step.', '')}` side is counted only when that object is a destination",
